@@ -31,6 +31,35 @@ fn malformed_first(rng: &mut Rng, ctype: u8) -> Vec<u8> {
     match ctype {
         20 => vec![*rng.pick(&[0u8, 2, 0x14, 0xff])],
         21 => vec![rng.u8()],
+        22 if rng.chance(1, 3) => {
+            // structurally invalid bodies with a certain verdict (rejected, never mis-decoded)
+            let hello = |rng: &mut Rng, tail: &[u8]| -> Vec<u8> {
+                let mut b = vec![3, 3];
+                b.extend(rng.bytes(32));
+                b.push(0); // no session id
+                b.extend_from_slice(tail);
+                let mut v = vec![1];
+                enc::put_u24(&mut v, b.len() as u64);
+                v.extend(b);
+                v
+            };
+            match rng.below(7) {
+                0 => {
+                    // odd cipher-suite list length
+                    let n = *rng.pick(&[1usize, 3, 5, 255]);
+                    let mut t = vec![(n >> 8) as u8, n as u8];
+                    t.extend(rng.bytes(n));
+                    t.extend_from_slice(&[1, 0]);
+                    hello(rng, &t)
+                }
+                1 => hello(rng, &[0, 8, 0xc0, 0x2b]),       // cipher list longer than the body
+                2 => hello(rng, &[0, 2, 0xc0, 0x2b, 5, 0]), // compression list longer than the body
+                3 => hello(rng, &[]),                        // mandatory fields cut off by the message length
+                4 => vec![0x0b, 0, 0, 5, 0, 0, 9, 1, 2],     // certificate list longer than the body
+                5 => vec![0x16, 0, 0, 6, 1, 0, 0, 9, 1, 2],  // status blob longer than the body
+                _ => vec![0x02, 0, 0, 3, 3, 3, 0],           // ServerHello cut off inside the random
+            }
+        }
         22 => match rng.below(6) {
             0 => vec![*rng.pick(&[0x63u8, 0x07, 0x09, 0x15, 0x17, 0xff]), 0, 0, 1, 0xaa], // unknown handshake type
             1 => match rng.below(3) {
@@ -108,7 +137,31 @@ fn gen_record(rng: &mut Rng, s: &mut Scenario, next_id: &mut u8, batch: u64, bud
     };
     let mut ids = Vec::new();
     let mut total = 0usize;
+    let crowd = rng.chance(1, 40);
     match ctype {
+        20 | 21 | 22 if crowd => {
+            // a crowded record: far more messages than any fixed small bound
+            let n = match rng.below(3) {
+                0 => *rng.pick(&[127u64, 128, 129, 255, 256, 257]),
+                _ => rng.range(20, 700),
+            };
+            let m = match ctype {
+                20 => Item::new("ccs"),
+                21 => gen::alert(rng),
+                _ => {
+                    if rng.chance(1, 2) {
+                        Item::new("hello_request")
+                    } else {
+                        gen::handshake(rng, "key_update", 8)
+                    }
+                }
+            };
+            let l = enc::tls_message(&m).len();
+            let n = n.min((CAP / l) as u64);
+            total += l * n as usize;
+            let id = push_msg(s, next_id, m.int("_rep", n));
+            ids.push(id);
+        }
         22 => {
             for _ in 0..rng.urange(1, 4) {
                 let b = if rng.chance(1, 25) { rng.urange(200, budget.max(201)) } else { rng.urange(8, 160) };
@@ -214,7 +267,25 @@ pub fn generate(rng: &mut Rng, prop: Prop) -> Scenario {
     s.push(Item::new("knob").int("batch", batch).int("reader", reader).int("compaction", compaction));
 
     let mut next_id = 0u8;
-    let nrec = if big { rng.urange(1, 3) } else { rng.urange(1, 10) };
+    // many-small: a long run of tiny records (the many-parsers' loop must not stop early or late)
+    let many_small = !big && matches!(prop, Prop::C16 | Prop::C02 | Prop::C01) && rng.chance(1, 12);
+    if many_small {
+        let n = match rng.below(4) {
+            0 => *rng.pick(&[15usize, 16, 17, 31, 32, 33, 63, 64, 65, 127, 128, 129, 255, 256, 257]),
+            _ => rng.urange(11, 300),
+        };
+        for _ in 0..n {
+            let (t, data): (u8, Vec<u8>) = match rng.below(5) {
+                0 => (20, vec![1]),
+                1 => (21, vec![rng.range(1, 2) as u8, rng.u8()]),
+                2 => (23, Vec::new()),
+                3 => (22, vec![0, 0, 0, 0]),
+                _ => (23, vec![rng.u8()]),
+            };
+            s.push(Item::new("rec").int("type", t as u64).int("ver", gen::version(rng) as u64).bytes("data", &data).str("x", "none"));
+        }
+    }
+    let nrec = if big { rng.urange(1, 3) } else if many_small { rng.urange(0, 2) } else { rng.urange(1, 10) };
     for _ in 0..nrec {
         if batch >= 2 && rng.chance(2, 3) {
             gen_raw_record(rng, &mut s, big);
@@ -253,7 +324,7 @@ pub fn generate(rng: &mut Rng, prop: Prop) -> Scenario {
         }
     }
     // delivery schedule
-    let mode = if total > 3000 { *rng.pick(&[1u64, 2, 3, 4, 5, 5]) } else { rng.below(6) };
+    let mode = if many_small { *rng.pick(&[2u64, 3, 3, 4]) } else if total > 3000 { *rng.pick(&[1u64, 2, 3, 4, 5, 5]) } else { rng.below(6) };
     let mut left = total + 8; // corruption may lengthen the stream slightly
     let mut segs: Vec<usize> = Vec::new();
     match mode {
@@ -348,8 +419,10 @@ fn build_stream(scn: &Scenario) -> (Vec<u8>, Vec<RecLayout>) {
                     for id in it.b("ms") {
                         if let Some((mi, m)) = scn.items.iter().enumerate().find(|(_, m)| m.kind != "rec" && m.u_opt("_id") == Some(*id as u64) && m.has("_id")) {
                             let b = enc::tls_message(m);
-                            msgs.push((start + 5 + payload.len(), start + 5 + payload.len() + b.len(), mi));
-                            payload.extend(b);
+                            for _ in 0..m.u_opt("_rep").unwrap_or(1).clamp(1, 20000) {
+                                msgs.push((start + 5 + payload.len(), start + 5 + payload.len() + b.len(), mi));
+                                payload.extend_from_slice(&b);
+                            }
                         }
                     }
                 }
@@ -726,6 +799,9 @@ pub fn execute(scn: &Scenario, ctx: &mut Ctx) {
     if layout.len() >= 2 {
         ctx.nontrivial = true;
     }
+    if layout.len() > 10 {
+        ctx.fault("many-small-records");
+    }
     for r in &layout {
         if r.lied {
             ctx.fault("length-lie");
@@ -737,6 +813,9 @@ pub fn execute(scn: &Scenario, ctx: &mut Ctx) {
         }
         if r.msgs.len() > 1 {
             ctx.fault("coalesce");
+        }
+        if r.msgs.len() > 16 {
+            ctx.fault("crowded-record");
         }
     }
     let small = stream.len() <= 3000;
